@@ -53,6 +53,7 @@ def NPV(
 
 
 @xl.register()
+@xl.validate_args
 def PMT(
         rate: func_xltypes.XlNumber,
         nper: func_xltypes.XlNumber,
